@@ -8,7 +8,9 @@ corr  : Lean models (Filters/Model.lean, Filters/Sites.lean) vs the real mako co
         random mixed strings; the htmlentityreplace handler under ascii / latin-1 / cp1251 / shift_jis / utf-8;
         `decode.<enc>` on single values and on HISTORIES of lookups and calls (closure-per-lookup model; the argument
         also an object whose str() changes between calls); `filter=` on <%def> / nested <%def> / <%block> x buffered= x
-        cached= (first render + cache hit, buffer_filters [] and ['x']) against the site model.  The Spec-side decoders
+        cached= (first render + cache hit, buffer_filters [] and ['x']) against the site model; default_filters x page
+        expression_filter x own filters of `${v ...}` against `Sites.writeExpression` (values typed plain str / Markup:
+        `h` on a Markup is a no-op).  The Spec-side decoders
         (unquote_plus, strict UTF-8, single character reference) are compared with CPython's.
 oracle: no Lean, run in a forked child in parallel, every call into mako guarded (an escaping exception is a violation
         `<site>-raises:<Class>`): markup scan of the outputs of `x`/`h`, html.unescape / urllib.parse.unquote_plus /
@@ -19,7 +21,12 @@ oracle: no Lean, run in a forked child in parallel, every call into mako guarded
         faithfulness of encode(..., 'htmlentityreplace') at byte level; each filter's guarantee at every application
         site (${e|n,f}, ${e|f}, default_filters, <%page expression_filter>, <%text filter>, filter= on <%def>, nested
         <%def>, <%block>, <%call>, <%self:def>) x {plain, buffered, cached, cached+buffered} rendered twice with an
-        in-memory CacheImpl; and the filters / output_encoding + encoding_errors through real templates.
+        in-memory CacheImpl; the escaping guarantee for every CONFIGURATION default_filters {None, [], ['str'], ['h'],
+        custom} x <%page expression_filter> {absent, h, x, 'n,h'} x the expression's own filters whenever h/x is in the
+        effective chain of the documented rule (top level, inside a def, inside a block); the handler through every
+        bytes-producing ENTRY (Template.render, get_def(..).render, DefTemplate.get_def, lookup templates incl. include /
+        inherit / file-based, render_context into a FastEncodingBuffer) x 5 output encodings; and the filters /
+        output_encoding + encoding_errors through real templates.
 """
 from __future__ import annotations
 
@@ -59,7 +66,10 @@ RULE = ("single code points: every scalar value U+0000..U+10FFFF (thorough) / al
         "object runs through `| decode.utf8`, `| n, decode.utf8`, default_filters; application sites: each filter at ${e|n,f}, "
         "${e|f}, default_filters, <%page expression_filter> (also cached page), <%text filter>, and filter= on <%def>, nested "
         "<%def>, <%block>, <%call>, <%self:def> x {plain, buffered, cached, cached+buffered}, rendered twice (fill + hit) with an "
-        "in-memory CacheImpl, on all strings of <= 2 atoms + random + long ones; a case is non-trivial when the filter changes the text (or the decoder "
+        "in-memory CacheImpl, on all strings of <= 2 atoms + random + long ones; configurations: 6 default_filters x 4 page "
+        "expression_filter x 12 own-filter lists x {top level, in a def, in a block}, asserted where h/x is in the effective "
+        "chain, and all of them against the expression model; entries: 10 bytes-producing entries x 5 output encodings on "
+        "unencodable characters and random strings; a case is non-trivial when the filter changes the text (or the decoder "
         "finds a reference); distinct = distinct (filter, input) pairs")
 ASSUMPTIONS = [
     "strings with lone surrogates are outside the domain (Lean's Char is the Unicode scalar values); the one place "
@@ -69,6 +79,9 @@ ASSUMPTIONS = [
     "markupsafe.escape is modelled from a probe of the running markupsafe (regen); its C speedups are compared on every code point, not verified",
     "html.entities of the running interpreter is the entity table (regenerated)",
     "decode.<enc> on invalid bytes / unknown encodings raises (UnicodeDecodeError/LookupError); the property is read as: whatever is returned is a str",
+    "the effective filter chain of an expression is computed in the oracle from the documented rule (own `n` disables page and "
+    "default filters, page `n` disables the defaults; order defaults, page, own); that rule itself is C02's subject",
+    "h applied to the result of h is a no-op (markupsafe.escape leaves a Markup unchanged): modelled (PyText.markup) and counted as one escaping step",
     "decode.<enc> on an object that is neither str nor bytes is str(x) evaluated at the time of the call, on every call",
     "application sites: the cache backend is an in-memory CacheImpl registered by the harness (get_or_create runs the creation "
     "function once per key); buffer_filters is [] (or ['x'] in corr.sites); Beaker/dogpile back ends are not exercised here",
@@ -77,6 +90,8 @@ TRUSTED_EXTRA = [
     "C10: tools/regen_filters.py (xml_escapes, regex classes, DEFAULT_ESCAPES, bindings from mako/filters.py by ast; "
     "html.entities, markupsafe probe, str.isspace, \\w, \\d from the interpreter)",
     "C10: urllib.parse.quote_plus, str.encode('utf8'), str.translate, re, the codecs: modelled and compared, not verified",
+    "C10: regen also reads DefTemplate.__init__ (copied attributes), runtime._render (FastEncodingBuffer arguments) and the condition "
+    "of codegen.visitExpression (inspected filter sources), and probes markupsafe's Markup kind behaviour",
     "C10: Filters/Sites.lean is a transcription of the decision logic of codegen.write_def_finish / write_cache_decorator, "
     "tied to the rendered output by corr.sites (not to the generated source text)",
 ]
@@ -1801,6 +1816,21 @@ def replay(ctx, data):
         if drv is None:
             return None
         return drv.ask("filt %s %s" % (op, arg))
+    if case.get("via") == "entry":
+        import shutil
+        import tempfile
+        d = tempfile.mkdtemp(prefix="c10entries_")
+        try:
+            r = check_entry(case["charset"], case["entry"], s, d)
+            try:
+                print("implementation: %s under %s on %r -> %r" % (case["entry"], case["charset"], s,
+                                                                   entry_renderers(case["charset"], d)[case["entry"]][0](s)))
+            except Exception as e:
+                print("implementation: %s under %s on %r raised %s: %s" % (case["entry"], case["charset"], s, type(e).__name__, e))
+        finally:
+            shutil.rmtree(d, ignore_errors=True)
+        print("oracle        :", r or "holds")
+        return r is None
     if name == "htmlentityreplace" or "charset" in case:
         cs = case.get("charset", "ascii")
         try:
@@ -1842,21 +1872,6 @@ def replay(ctx, data):
         except Exception as e:
             print("implementation: raised", type(e).__name__, e)
         print("effective chain (documented rule):", effective_chain(case["own"], case["page"], CFG_DEFAULTS[case["default_filters"]]))
-        print("oracle        :", r or "holds")
-        return r is None
-    if case.get("via") == "entry":
-        import shutil
-        import tempfile
-        d = tempfile.mkdtemp(prefix="c10entries_")
-        try:
-            r = check_entry(case["charset"], case["entry"], s, d)
-            try:
-                print("implementation: %s under %s on %r -> %r" % (case["entry"], case["charset"], s,
-                                                                   entry_renderers(case["charset"], d)[case["entry"]][0](s)))
-            except Exception as e:
-                print("implementation: %s under %s on %r raised %s: %s" % (case["entry"], case["charset"], s, type(e).__name__, e))
-        finally:
-            shutil.rmtree(d, ignore_errors=True)
         print("oracle        :", r or "holds")
         return r is None
     if case.get("via") == "site":
